@@ -222,6 +222,20 @@ GroupedChain(xs, ops, grp, neg) ==
            ops2 == SubSeq(ops, 1, p - 1) \o SubSeq(ops, q, Len(ops))
        IN ChainProduct(os2, ops2, neg)
 
+\* ------------------------------------------------------------------ array literals  [ .. , [ .. ], .. ]
+(* a literal is a tree  [k |-> "num"]  or  [k |-> "arr", xs |-> sequence of trees];  it denotes an array exactly when it
+   is rectangular (all items of every bracket have one shape); ragged input has to be refused, never padded or
+   turned into something else.  (Behind the property: this is how operands written entry by entry come to exist.) *)
+RECURSIVE LitShape(_), LitLeaves(_)
+LitShape(t) == IF t.k = "num" THEN [k |-> "sh", sh |-> <<>>]
+               ELSE LET cs == Tup([i \in 1..Len(t.xs) |-> LitShape(t.xs[i])], Len(t.xs)) IN
+                    IF \E i \in 1..Len(t.xs) : cs[i].k = "ragged" \/ cs[i] # cs[1] THEN [k |-> "ragged"]
+                    ELSE [k |-> "sh", sh |-> <<Len(t.xs)>> \o cs[1].sh]
+LitLeaves(t) == IF t.k = "num" THEN 1 ELSE LET RECURSIVE S(_)
+                                                S(n) == IF n = 0 THEN 0 ELSE S(n - 1) + LitLeaves(t.xs[n])
+                                            IN S(Len(t.xs))
+LawLiteral(t) == LET r == LitShape(t) IN r.k = "sh" => SizeOf(r.sh) = LitLeaves(t)
+
 \* ------------------------------------------------------------------ laws (checked by TLC on every generated case)
 SameOutcome(o1, o2) == (o1.k = o2.k) /\ (IsVal(o1) => o1.v = o2.v)
 \* the result shape is a function of the operand shapes; shapes refused by the shape algebra are refused for all values
